@@ -97,6 +97,36 @@ fn apply_edit(f: &mut Font, tr: &mut Track, op: &str) {
             // a group without members is a (valid, non-empty) groups map
             f.groups.insert(norad::Name::new("vowels").unwrap(), vec![]);
         }
+        "ie" => {
+            // "present but empty" INNER values of font info, through the API: `Some(vec![])` is not the default, so the font
+            // info is not empty and fontinfo.plist must be written WITH that (empty) list in it
+            let fi = &mut f.font_info;
+            match p[1].parse::<u32>().unwrap_or(0) {
+                0 => {
+                    f.guidelines_mut();
+                }
+                1 => {
+                    let gs = f.guidelines_mut();
+                    gs.push(norad::Guideline::new(norad::Line::Horizontal(5.0), None, None, None));
+                    gs.clear();
+                }
+                2 => fi.postscript_blue_values = Some(vec![]),
+                3 => fi.postscript_other_blues = Some(vec![]),
+                4 => fi.postscript_stem_snap_h = Some(vec![]),
+                5 => fi.open_type_gasp_range_records = Some(vec![]),
+                6 => fi.open_type_name_records = Some(vec![]),
+                7 => fi.open_type_os2_selection = Some(vec![]),
+                8 => fi.open_type_os2_unicode_ranges = Some(vec![]),
+                _ => fi.open_type_head_flags = Some(vec![]),
+            }
+        }
+        "lx" => {
+            // a layer lib that was filled and emptied again (and no colour): no layerinfo.plist
+            if let Ok(l) = f.layers.get_or_create_layer(&unhexs(p[1])) {
+                l.lib.insert("k".into(), plist::Value::Boolean(true));
+                l.lib.remove("k");
+            }
+        }
         "kp" => {
             // add a pair, then delete it the obvious way: the first glyph stays behind with no seconds
             let a = norad::Name::new("A").unwrap();
